@@ -231,6 +231,7 @@ class C16(Prop):
                    'every connected side runs _crosswire_proxy exactly once against the same proxy channels',
                    'zmq delivers every publication to every connected subscriber exactly once']
     widen_cases = 1500
+    impl_timeout = 240          # a mutant that loops inside a callback must not stall the check
 
     # ------------------------------------------------------------------ cases
     def _rand_post(self, rng, n):
@@ -276,7 +277,7 @@ class C16(Prop):
         for n in ((0, 1, 2, 3) if tier == 'quick' else (0, 1, 2, 3, 4, 5)):
             for p in self._single_posts(n):
                 yield {'kind': 'net', 'n': n, 'posts': [p], 'sched': []}
-        nr = 260 if tier == 'quick' else 4000
+        nr = 400 if tier == 'quick' else 4000
         nmax = 6 if tier == 'quick' else 12
         for _ in range(nr):
             n = rng.randint(0, nmax) if rng.random() < 0.9 else rng.randint(0, 2)
